@@ -266,7 +266,7 @@ ASSUME_SIM = [
 SIM_PROPS = {
     "C01": ["C01."], "C02": ["C02."], "C03": ["C03."], "C04": ["C04."], "C05": ["C05."],
     "C06": ["C06."], "C07": ["C07."], "C08": ["C08."], "C09": ["C09."], "C12": ["C12."],
-    "C13": ["C13."], "C15": ["C15."], "C17": ["C17."], "C19": ["C19."],
+    "C13": ["C13."], "C15": ["C15."], "C17": ["C17."], "C18": ["C18."], "C19": ["C19."],
 }
 
 
